@@ -219,22 +219,7 @@ def run(ctx) -> Result:
               ok_detail=f"kernel tests positions against {sorted(sentinels)}",
               bad_detail=f"kernel compares positions with constants {sorted(sentinels)}, expected only -1")
     ds = proj.cls("corankco.dataset", "Dataset")
-    rk = proj.cls("corankco.ranking", "Ranking")
-    for meth in ("get_positions", "get_bucket_ids"):
-        g = proj.method(ds, meth)
-        res.saw(g)
-        _check_matrix_builder(res, proj, g, rk)
-    # ScoringScheme accessors and wrapper
-    sc = proj.cls("corankco.scoringscheme", "ScoringScheme")
-    for name, idx in (("b_vector", 0), ("t_vector", 1)):
-        p = proj.method(sc, name)
-        res.saw(p)
-        rets = [n_ for n_ in ast.walk(p.node) if isinstance(n_, ast.Return)]
-        good = len(rets) == 1 and isinstance(rets[0].value, ast.Subscript) and _const_int(rets[0].value.slice) == idx \
-            and src(rets[0].value.value) in ("self.penalty_vectors", "self._penalty_vectors")
-        res.check(good, "T4", f"ScoringScheme.{name}:row", p.loc(),
-                  ok_detail=f"{name} is row {idx} of the penalty vectors",
-                  bad_detail=f"{name} is not row {idx} of the penalty vectors: {src(rets[0].value) if rets else '?'}")
+    _check_encodings(res, proj)
     w = proj.func(MOD, "PairwiseBasedAlgorithm.pairwise_cost_matrix")
     res.saw(w)
     _check_wrapper(res, proj, w, f)
@@ -246,6 +231,65 @@ def run(ctx) -> Result:
         from . import e2e
         e2e.check(res, ctx.proj, "C02", ctx.thorough)
     return res
+
+
+def _check_encodings(res: Result, proj):
+    """T4 (evaluation on real instances): what the kernel is fed. Dataset.get_positions / get_bucket_ids give an
+    (nb_elements x nb_rankings) matrix, row = the dataset's id of the element, column = index of the ranking, -1 exactly
+    where the element is not ranked, values >= 0 elsewhere and ordered like the buckets (equal inside a bucket);
+    ScoringScheme.penalty_vectors / b_vector / t_vector are the [B, T] rows given to the constructor."""
+    from .datamodel import World
+    from ..engines.abseval import Mat
+    w = World(proj)
+    datasets = [[[{1}, {2, 3}], [], [{3}, {1}], [{4}], [{2}, {4, 1}]],
+                [[{"a"}, {"b"}, {"c", "d"}], [{"d", "c"}, {"a"}], [{"b"}]],
+                [[{5, 6, 7}], [{7}, {6}, {5}]]]
+    for meth in ("get_positions", "get_bucket_ids"):
+        g = proj.method(w.D, meth)
+        res.saw(g)
+        bad = None
+        for raws in datasets:
+            d = w.dataset(raws)
+            st, m = w.safe(meth, w.call, d, meth)
+            if st != "ok" or not isinstance(m, Mat):
+                bad = bad or (raws, f"gives {m!r}")
+                continue
+            ids = {w.key(k)[1]: v for k, v in w.call(d, "mapping_elem_id").items()}
+            rows = m.rows
+            if len(rows) != len(ids) or any(len(r) != len(raws) for r in rows):
+                bad = bad or (raws, f"shape {(len(rows), len(rows[0]) if rows else 0)}, expected ({len(ids)}, {len(raws)})")
+                continue
+            for j, r in enumerate(raws):
+                where = {e: k for k, bk in enumerate(r) for e in bk}
+                for e, i in ids.items():
+                    v = rows[i][j]
+                    if e not in where and v != spec.UNRANKED:
+                        bad = bad or (raws, f"element {e!r} is not in ranking #{j} but its entry is {v} (not {spec.UNRANKED})")
+                    if e in where and not (isinstance(v, int) and v >= 0):
+                        bad = bad or (raws, f"element {e!r} is in ranking #{j} but its entry is {v}")
+                for e1 in where:
+                    for e2 in where:
+                        v1, v2 = rows[ids[e1]][j], rows[ids[e2]][j]
+                        if isinstance(v1, int) and isinstance(v2, int) and \
+                                ((v1 < v2) != (where[e1] < where[e2]) or (v1 == v2) != (where[e1] == where[e2])):
+                            bad = bad or (raws, f"ranking #{j}: entries of {e1!r}, {e2!r} are {v1}, {v2} but their buckets "
+                                                f"are {where[e1]}, {where[e2]}")
+        res.check(bad is None, "T4", f"Dataset.{meth}:encoding", g.loc(),
+                  ok_detail="(elements x rankings), -1 iff unranked, >= 0 and ordered like the buckets otherwise",
+                  bad_detail=f"dataset {bad[0]}: {bad[1]}" if bad else "")
+    sc = proj.cls("corankco.scoringscheme", "ScoringScheme")
+    pen = [[0., 1., 2., 3., 4., 5.], [6., 6., 0., 7., 7., 8.]]
+    inst = w.rt.new(sc, [[list(pen[0]), list(pen[1])]], {})
+    for name, want in (("penalty_vectors", pen), ("b_vector", pen[0]), ("t_vector", pen[1])):
+        pm = proj.method(sc, name)
+        res.saw(pm)
+        st, got = w.safe(name, w.call, inst, name)
+        norm = [list(x) for x in got] if st == "ok" and name == "penalty_vectors" and isinstance(got, list) else \
+            (list(got) if st == "ok" and isinstance(got, list) else got)
+        res.check(st == "ok" and norm == want, "T4", f"ScoringScheme.{name}:row", pm.loc(),
+                  ok_detail=f"{name} = {'[B, T]' if name == 'penalty_vectors' else ('B' if name == 'b_vector' else 'T')} as given "
+                            f"to the constructor",
+                  bad_detail=f"{name} gives {got!r} for a scheme built from {pen}")
 
 
 def _check_fresh_matrices(res: Result, proj):
@@ -485,9 +529,4 @@ def _check_wrapper(res: Result, proj, w, kernel):
                   ok_detail="kernel gets (positions, [B, T] rows of the scheme, " +
                             ("the caller's weights" if weights is not None else "ones(nb_rankings)") + ", nb_elements, nb_rankings)",
                   bad_detail=detail if not good else "")
-    pv = proj.method(proj.cls("corankco.scoringscheme", "ScoringScheme"), "penalty_vectors")
-    rets = [n_ for n_ in ast.walk(pv.node) if isinstance(n_, ast.Return)]
-    res.check(len(rets) == 1 and src(rets[0].value) == "self._penalty_vectors", "T4",
-              "ScoringScheme.penalty_vectors:identity", pv.loc(),
-              ok_detail="penalty_vectors returns the stored [B, T] list",
-              bad_detail="penalty_vectors does not return the stored vectors")
+
